@@ -182,6 +182,12 @@ func runOne(t *testing.T, p *simkit.Prop, c *simkit.Case, idx int, keep bool) *s
 			} else {
 				simkit.SetYield(0, 1)
 			}
+			if fs := os.Getenv("VERIF_FORCE_STALL"); fs != "" && c.Cfg["stall_den"] == 0 {
+				// developer aid: force the execution-time fault on for every run
+				var den, us int64
+				fmt.Sscanf(fs, "%d,%d", &den, &us)
+				c.Cfg["stall_den"], c.Cfg["stall_max_us"] = den, us
+			}
 			simkit.SetStall(uint64(c.Cfg["stall_den"]), uint64(c.Cfg["stall_max_us"])*1000)
 			simkit.SchedSeed(c.SchedSeed)
 			simkit.SetWallLimit(int64(maxWall))
@@ -191,7 +197,6 @@ func runOne(t *testing.T, p *simkit.Prop, c *simkit.Case, idx int, keep bool) *s
 			if n := simkit.StallCount(); n > 0 {
 				run.FaultN("exec_stall", int(n))
 			}
-			simkit.SetStall(0, 0)
 			// Time stops when the bubble's root function returns: let every timeout of
 			// the torn-down system (stream deadlines, dial timeouts, back-offs, grace
 			// periods) expire first, so that only real leaks remain blocked.
@@ -202,6 +207,9 @@ func runOne(t *testing.T, p *simkit.Prop, c *simkit.Case, idx int, keep bool) *s
 			// exited (teardown is part of the deterministic execution)
 		})
 		simkit.SchedSeed(0)
+		// the execution-time fault stays on during the drain: a goroutine asleep in
+		// a stall may be what a spinning one (yamux Stream.Read) is waiting for
+		simkit.SetStall(0, 0)
 	}()
 	wd.Stop()
 	simkit.SetWallLimit(0)
